@@ -136,7 +136,9 @@ func c06Gen(tier string, seed int64) []fw.Case {
 			add(c06Desc{Kind: "libpair", Role: role, Codes: append([]int{1005}, c06RepCodes...), Reasons: []int{0, 9, 123}, Place: place}, fmt.Sprintf("libpair/%s-closes/%s", role, place))
 		}
 		// (A') local Close while a reader is active and the peer drops the transport right after its echo
-		for _, rd := range []string{"CloseRead", "Read", "none"} {
+		// (the -mid-frame readers are parked INSIDE a data frame whose rest the peer sends only after it has seen the
+		// Close frame, right in front of its echo: the reader consumes it while Close waits for its turn to read)
+		for _, rd := range []string{"CloseRead", "Read", "none", "Read-mid-frame", "Reader-mid-frame", "CloseRead-mid-frame"} {
 			for _, drop := range []string{"peer-closes-transport-after-echo", "peer-keeps-transport"} {
 				add(c06Desc{Kind: "local-active-reader", Role: role, Place: rd, Closer: drop}, fmt.Sprintf("local-active-reader/%s/%s/%s", role, rd, drop))
 			}
@@ -783,21 +785,65 @@ func c06LocalActiveReader(r *fw.R, d c06Desc, iter int) {
 	peer := newRawPeer(peerEnd, d.Role, wire.Params{}, d.Seed+uint64(iter))
 	peer.AutoPong = true
 	drop := d.Closer == "peer-closes-transport-after-echo"
+	midFrame := strings.HasSuffix(d.Place, "-mid-frame")
+	var rest []byte // what is still to come of the frame the reader is parked in
+	mrng := fw.NewRand(d.Seed + uint64(iter)*977)
 	peer.OnFrame = func(f wire.Frame) {
 		if f.Op == wire.OpClose {
+			for len(rest) > 0 {
+				k := 1 + mrng.Intn(len(rest))
+				peer.SendBytes(rest[:k])
+				rest = rest[k:]
+				if mrng.Bool() {
+					time.Sleep(time.Duration(mrng.Intn(300)) * time.Microsecond)
+				}
+			}
 			peer.Send(wire.Close(f.Payload))
 			if drop {
 				peerEnd.Close()
 			}
 		}
 	}
+	if midFrame {
+		op := byte(wire.OpBinary)
+		if d.Place == "CloseRead-mid-frame" {
+			op = wire.OpPong // (CloseRead fails on a data message: its reader is parked inside a control frame instead)
+		}
+		n := []int{2, 100, 126, 3000, 20000}[iter%5]
+		if op == wire.OpPong {
+			n = []int{2, 50, 125}[iter%3]
+		}
+		fr := peer.Mask(wire.Frame{Fin: true, Op: op, Payload: mrng.Bytes(n), LenForm: -1}).Bytes()
+		k := len(fr) - n + mrng.Intn(n) // header and part of the payload (at least one payload byte stays behind)
+		if iter%4 == 3 {
+			k = 1 + mrng.Intn(len(fr)-n-1) // or only part of the header
+		}
+		rest = fr[k:]
+		peer.SendBytes(fr[:k])
+		r.Count("local_closes_with_a_reader_parked_inside_a_frame", 1)
+	}
 	peer.Start()
 	ctx, cancel := context.WithTimeout(context.Background(), 30*time.Second)
 	defer cancel()
 	switch d.Place {
-	case "CloseRead":
+	case "CloseRead", "CloseRead-mid-frame":
 		c.CloseRead(ctx)
-	case "Read":
+	case "Reader-mid-frame":
+		buf := make([]byte, 1+mrng.Intn(700))
+		go func() {
+			for {
+				_, rd, err := c.Reader(ctx)
+				if err != nil {
+					return
+				}
+				for {
+					if _, err := rd.Read(buf); err != nil {
+						break
+					}
+				}
+			}
+		}()
+	case "Read", "Read-mid-frame":
 		go func() {
 			for {
 				if _, _, err := c.Read(ctx); err != nil {
@@ -814,7 +860,10 @@ func c06LocalActiveReader(r *fw.R, d c06Desc, iter int) {
 	defer c06Delay.Store(false)
 	code := c06RepCodes[iter%len(c06RepCodes)]
 	stopFlood := make(chan struct{})
-	if iter%3 == 0 && !drop {
+	if midFrame {
+		time.Sleep(time.Duration(iter%4) * 300 * time.Microsecond)
+	}
+	if iter%3 == 0 && !drop && !midFrame {
 		// (not when the peer vanishes right behind its echo: a Pong for a Ping queued before the echo could then not
 		// be written, and Close reports that)
 		// control frames keep arriving (and being answered) while Close builds and writes its frame
